@@ -321,3 +321,27 @@ package types
 //@   trusted
 //@   assigns nothing
 //@   ensures canon: result == proposalSignBytes(chainID, int32(p.Type), p.Height, p.Round, p.PolRound, p.BlockID.Hash, p.BlockID.PartSetHeader.Total, p.BlockID.PartSetHeader.Hash, p.Timestamp)
+
+// ---- protobuf conversions used by the block store: ASSUMED not to touch existing state ----
+//@ func BlockMetaFromProto
+//@   trusted
+//@   assigns nothing
+//@ func NewBlockMeta
+//@   trusted
+//@   assigns nothing
+//@ func BlockMeta.ToProto
+//@   trusted
+//@   assigns nothing
+//@ func Commit.ToProto
+//@   trusted
+//@   assigns nothing
+//@ func Part.ToProto
+//@   trusted
+//@   assigns nothing
+//@ func CommitFromProto
+//@   trusted
+//@   assigns nothing
+//@ func Block.Hash
+//@   trusted
+//@   purefn
+//@   assigns nothing
